@@ -68,6 +68,15 @@ class Cog14(ExactSolver):
             print("*** warning: alpha lies outside range [-2,-1] ***")
         if self.beta < 1.0 or self.beta > 3.0:
             print("*** warning: beta lies outside range [1,3] ***")
+        # T0 is the real power of a quantity with the sign of b / (k - b): it is a
+        # real positive temperature only if that ratio is positive (planar
+        # geometry, k = 0, gives -1 for every alpha and beta)
+        k = self.geometry - 1.
+        if 2 + self.alpha - 2 * (self.beta + 4) == 0:
+            raise ValueError("2 + alpha - 2 (beta + 4) must be nonzero")
+        b = (k - 1 - self.alpha * k) / (2 + self.alpha - 2 * (self.beta + 4))
+        if b == k or b / (k - b) <= 0:
+            raise ValueError("no real solution: b / (k - b) must be positive")
 
     def _run(self, r, t):
 
